@@ -376,6 +376,10 @@ def run(ctx):
         if len(ds) != 1:
             return ("?", None)
         bi, si, kind, payload = ds[0]
+        if kind == "call" and payload.get("_inl_src"):
+            # result of a spliced helper: follow the real data flow (dest = move <helper's return slot>)
+            src = F.op_place(payload["_inl_src"]["o"]) if payload["_inl_src"].get("rv") == "use" else None
+            return origin(src[0]) if src and len(src) == 1 else ("?", None)
         if kind == "call":
             d = payload["f"].get("def", "")
             if d.endswith("TokTrie::alloc_token_set"):
@@ -400,6 +404,26 @@ def run(ctx):
                 role_of[l] = "residual"
             elif muts[l] <= {"trim_trailing_zeros"}:
                 role_of[l] = "trimmed"
+    def alias(l, depth=6):
+        """the roled local whose value `l` holds (moves, results of spliced helpers)"""
+        while l is not None and l not in role_of and depth > 0:
+            depth -= 1
+            ds = ft.defs().get(l, [])
+            if len(ds) != 1:
+                return None
+            bi, si, kind, payload = ds[0]
+            src = None
+            if kind == "call" and payload.get("_inl_src") and payload["_inl_src"].get("rv") == "use":
+                src = F.op_place(payload["_inl_src"]["o"])
+            elif kind == "assign" and payload["rv"] == "use":
+                src = F.op_place(payload["o"])
+            l = src[0] if src and len(src) == 1 else None
+        return l
+    for l in list(vob_locals) + [x for x in range(len(ft.locals)) if ft.local_ty(x) == SVT and x not in vob_locals]:
+        if l not in role_of:
+            a_ = alias(l)
+            if a_ is not None and a_ in role_of and not muts.get(l):
+                role_of[l] = role_of[a_]
     ctx.check(len(bases) == 1, "C10-R3", "slice-mask:one-base-mask", "one token set is allocated and filled by the match loop",
               "expected one base mask (alloc_token_set + allow_token/set_all) in from_topo_node, found %d" % len(bases), site=ft.where())
 
